@@ -1,12 +1,17 @@
 """C13 — A dry run has no effects and predicts the real build (target.go, function.go, sourceFile.go, project.go, project_index.go)."""
 import build_common
 
-RULE = ("histories with dry runs (also with --always) each followed by the real build of the same tree, some with a failing body. Judge: a dry run starts no body; .dawn/build and the project files are byte-identical before and after Run (hashed inside the child after Load and after Run) and the project files around the whole process; the decoded records are those from before the command; the dry run's evaluating set equals the real build's when it succeeds, and when it fails contains it, the extra targets all downstream of the failure; the twin history without the dry runs executes the same bodies in every build. Correspondence as for C01. Same-process part (an addition to DESIGN §4's fresh-load decision): Load once, then all sequences of length 2 and a sample (thorough: all) of length 3 of Run with options in {nil, {}, {DryRun}, {Always}, {Always,DryRun}} on ONE loaded project; a run whose options are not dry must execute exactly the bodies its Evaluating events announce and persist their records, a dry run none, and `always` must not be the reason for evaluating unless the run's options say so; RunOptions.apply is compared value by value (stream build.options: previous flags x options). Round 2: the REPL builtin run(label, always=, dry_run=) is driven through Project.REPLEnv with every keyword combination (each alone and followed by Run(nil)); judge-only histories replace the directory above a generated file by a regular file so that the up-to-date check fails (ENOTDIR) during a dry run: .dawn/build must be byte-identical around every dry run, failing ones included, and the real build after the fault is removed executes nothing.")
+RULE = ("histories with dry runs (also with --always) each followed by the real build of the same tree, some with a failing body. Judge: a dry run starts no body; .dawn/build and the project files are byte-identical before and after Run (hashed inside the child after Load and after Run) and the project files around the whole process; the decoded records are those from before the command; the dry run's evaluating set equals the real build's when it succeeds, and when it fails contains it, the extra targets all downstream of the failure; the twin history without the dry runs executes the same bodies in every build. Correspondence as for C01. Same-process part (an addition to DESIGN §4's fresh-load decision): Load once, then all sequences of length 2 and a sample (thorough: all) of length 3 of Run with options in {nil, {}, {DryRun}, {Always}, {Always,DryRun}} on ONE loaded project; a run whose options are not dry must execute exactly the bodies its Evaluating events announce and persist their records, a dry run none, and `always` must not be the reason for evaluating unless the run's options say so; RunOptions.apply is compared value by value (stream build.options: previous flags x options). Round 2: the REPL builtin run(label, always=, dry_run=) is driven through Project.REPLEnv with every keyword combination (each alone and followed by Run(nil)); judge-only histories replace the directory above a generated file by a regular file so that the up-to-date check fails (ENOTDIR) during a dry run: .dawn/build must be byte-identical around every dry run, failing ones included, and the real build after the fault is removed executes nothing. Round 4: same-process sequences after an edit (earlier processes build, an input changes, then ONE process makes Run(DryRun) and the real Run): the real run evaluates what the dry run announced and leaves the from-scratch outputs. " + build_common.CLI_RULE)
 
 
 def run(c):
-    return build_common.run_prop(c, "C13", RULE)
+    build_common.run_prop(c, "C13", RULE)
+    build_common.cli_stream(c)      # the command layer: `dawn -n`, `dawn build -n`, `dawn build` (C13 only)
+    return c
 
 
 def replay(c, case):
-    return build_common.replay(c, "C13", case.get("input", case))
+    inp = case.get("input", case)
+    if isinstance(inp, dict) and inp.get("stream") == "cli.c13":
+        return build_common.cli_replay(c, inp)
+    return build_common.replay(c, "C13", inp)
